@@ -677,6 +677,11 @@ func (c *VC) intrinsic(st *State, fn *types.Func, call *ast.CallExpr) ([]*Term, 
 		}
 	}
 	switch name {
+	case "sort.Ints":
+		// documented: sorts a slice of ints in increasing order (assumed; standard library)
+		if r, ok := c.sortIntsIntrinsic(st, call); ok {
+			return r, true
+		}
 	case "sort.Slice", "sort.SliceStable":
 		if r, ok := c.sortSliceIntrinsic(st, call); ok {
 			return r, true
@@ -1568,6 +1573,53 @@ func (c *VC) sortSliceIntrinsic(st *State, call *ast.CallExpr) ([]*Term, bool) {
 		rng := mkAnd(c.cmp(token.LEQ, c.idxLit(0), a, it), c.cmp(token.LSS, a, b, it), c.cmp(token.LSS, b, ln, it))
 		c.facts = append(c.facts, mkForall([]*Term{a, b}, mkImplies(rng, mkNot(body))))
 	}
+	return nil, true
+}
+
+// sortIntsIntrinsic: sort.Ints(s) leaves a permutation of s in increasing order; nothing else changes.
+func (c *VC) sortIntsIntrinsic(st *State, call *ast.CallExpr) ([]*Term, bool) {
+	sl, ok := c.typeOf(call.Args[0]).Underlying().(*types.Slice)
+	if !ok {
+		return nil, false
+	}
+	it := types.Typ[types.Int]
+	c.assumptions["sort.Ints is modelled by its documentation (result is a permutation of the input in increasing order): assumed, standard library"] = true
+	s := c.eval(st, call.Args[0])
+	base, off, ln := mkField(s, "sl_base"), mkField(s, "sl_off"), mkField(s, "sl_len")
+	hn, h := c.sliceHeap(st, sl.Elem())
+	row0 := c.name("sortrow0", c.sel(h, base))
+	c.checkWrite(st, hn, base, off, c.binop(token.ADD, off, ln, it), call.Pos(), "sort.Ints")
+	row1 := c.fresh("sortrow", row0.Sort)
+	st.heaps[hn] = mkStore(h, base, row1)
+	c.freshN++
+	perm := fmt.Sprintf("sortperm!%d", c.freshN)
+	inv := fmt.Sprintf("sortinv!%d", c.freshN)
+	is := c.idxSort()
+	bnd := func(v *Term) {
+		if c.mode == ModeInt {
+			c.varBounds[v.Op] = interval{bigInt(0), pow2(maxLenBits)}
+		}
+	}
+	j := c.boundVar("j", is)
+	out := mkOr(c.cmp(token.LSS, j, off, it), c.cmp(token.GEQ, j, c.binop(token.ADD, off, ln, it), it))
+	c.facts = append(c.facts, mkForall([]*Term{j}, mkImplies(out, mkEq(mkSelect(row1, j), mkSelect(row0, j))), mkSelect(row1, j)))
+	k := c.boundVar("k", is)
+	bnd(k)
+	in := mkAnd(c.cmp(token.LEQ, c.idxLit(0), k, it), c.cmp(token.LSS, k, ln, it))
+	pk := c.uf(perm, is, k)
+	c.facts = append(c.facts, mkForall([]*Term{k}, mkImplies(in, mkAnd(c.cmp(token.LEQ, c.idxLit(0), pk, it), c.cmp(token.LSS, pk, ln, it),
+		mkEq(mkSelect(row1, c.binop(token.ADD, off, k, it)), mkSelect(row0, c.binop(token.ADD, off, pk, it))))), mkSelect(row1, c.binop(token.ADD, off, k, it))))
+	k2 := c.boundVar("k", is)
+	bnd(k2)
+	in2 := mkAnd(c.cmp(token.LEQ, c.idxLit(0), k2, it), c.cmp(token.LSS, k2, ln, it))
+	ik := c.uf(inv, is, k2)
+	c.facts = append(c.facts, mkForall([]*Term{k2}, mkImplies(in2, mkAnd(c.cmp(token.LEQ, c.idxLit(0), ik, it), c.cmp(token.LSS, ik, ln, it),
+		mkEq(mkSelect(row0, c.binop(token.ADD, off, k2, it)), mkSelect(row1, c.binop(token.ADD, off, ik, it))))), mkSelect(row0, c.binop(token.ADD, off, k2, it))))
+	a, b := c.boundVar("a", is), c.boundVar("b", is)
+	bnd(a)
+	bnd(b)
+	rng := mkAnd(c.cmp(token.LEQ, c.idxLit(0), a, it), c.cmp(token.LSS, a, b, it), c.cmp(token.LSS, b, ln, it))
+	c.facts = append(c.facts, mkForall([]*Term{a, b}, mkImplies(rng, c.cmp(token.LEQ, mkSelect(row1, c.binop(token.ADD, off, a, it)), mkSelect(row1, c.binop(token.ADD, off, b, it)), sl.Elem()))))
 	return nil, true
 }
 
